@@ -47,7 +47,7 @@ import warnings
 from vf import core
 
 ID = 'C16'
-N = {'quick': 4000, 'thorough': 100000}
+N = {'quick': 3600, 'thorough': 100000}
 BUDGET = {'quick': 800, 'thorough': 6000}       # seconds per shard; a slow tree is inconclusive, not a hang
 NT_RULE = ('case = one network (random: 2-12 species over 1-4 elements with generated NASA-7 '
            'coefficients, G/RT span <= 60 at each T, full-rank or rank-deficient formula matrix; or '
@@ -74,7 +74,11 @@ REQUIRED_CLASSES = ['network:random', 'network:pinned', 'rank:full', 'rank:defic
                     'history:thermdat_path_rewritten', 'history:thermdat_same_name_other_dir',
                     'history:repeat_same_TP_after_inplace_edit', 'history:repeat_same_TP',
                     'history:same_T_other_P', 'history:same_P_other_T',
-                    'history:revisit_after_other_conditions']
+                    'history:revisit_after_other_conditions',
+                    'history:network_reordered_on_live_object', 'history:network_amounts_doubled_on_live_object',
+                    'species_opts:default(gas label + GasPressureAdj)', 'species_opts:gas_label_without_P_adj',
+                    'species_opts:P_adj_without_gas_label', 'species_opts:no_phase_label',
+                    'species_opts:mixed_in_one_network']
 REQUIRED_BRANCHES = ['Q4:minor_species', 'Q4:major_species_only']
 REQUIRED_PROBES = ['scipy.optimize.minimize', 'Equilibrium.get_net_comp', 'Equilibrium._objective',
                    'Equilibrium._constraints1_eq', 'Equilibrium.__init__', 'read_thermdat']
@@ -96,6 +100,16 @@ ASSUMPTIONS = [
     'element dictionaries may list elements with an explicit count of 0 (as read_thermdat produces for the '
     'fixed element fields of an entry), also for elements that no species of the network contains and at any '
     'position; such entries do not make the element part of the network',
+    'species objects: the phase label (None, G, g, gas; given to the constructor or assigned later), '
+    'add_gas_P_adj and misc_models ([], [GasPressureAdj()], cleared) do not change the standard-state G/RT of a '
+    'species and therefore must not change the equilibrium; the unchanged tree returns bit-identical results '
+    'for all 96 combinations (N2O4 = 2 NO2 at 20 atm).  A label such as S declares the species not to be a gas '
+    'and is outside the quantifier (not generated)',
+    'network attribute of a live object: a re-ordering with the same species and amounts leaves the feed (a '
+    'mapping species -> amount) unchanged, so all oracles apply unchanged (the unchanged tree ignores the '
+    'attribute after construction).  Changed amounts are ambiguous (construction feed or current feed); for the '
+    'one generated edit of that kind (all amounts doubled) the result may be the equilibrium of either feed, i.e. '
+    '1x or 2x one and the same composition, which is then checked by Q1-Q4/Q7 after dividing by that factor',
     'Q7: SLSQP is deterministic, so two solves with identical inputs (same object again, a newly built object, '
     'the other API with the same 9-digit coefficients) must agree to rounding; in-place edits applied to a '
     'returned composition are the caller\'s business and must not leak into later results',
@@ -420,6 +434,7 @@ def _generate_random(rng):
         gg = [g_ref(sp, T) for sp in species]
         return max(gg) - min(gg) <= 60.0
     good, calls = _gen_calls(rng, good, ok_T, lambda: _gen_T(rng))
+    _gen_species_options(rng, species, api)
     spec = {'network': 'random', 'api': api, 'species': species,
             'feed': [[sp['name'], f] for sp, f in zip(species, feed)],
             'points': good, 'calls': calls, 'perm': perm}
@@ -434,6 +449,37 @@ def _generate_random(rng):
 
 
 MUTATIONS = ('mmol', 'percent', 'normalise', 'zero_traces', 'sort')
+NETWORK_OPS = ('sorted', 'reversed', 'rotate', 'pop_reinsert', 'equal_copy', 'scale2')
+
+
+def _gen_species_options(rng, species, api):
+    """How the caller constructed the (gas) species objects: phase label None | 'G' | 'g' | 'gas', given to
+    the constructor or assigned afterwards; add_gas_P_adj default | True | False; misc_models default |
+    [] | [GasPressureAdj()] | cleared after construction.  None of this changes the species'
+    standard-state G/RT, so none of it may change the equilibrium.  (A label such as 'S' would declare the
+    species not to be a gas: outside the quantifier, not generated.)  Species that come from a
+    thermdat file can only be edited after the read (eq.model[name])."""
+    mode = rng.choice(['default', 'default', 'uniform', 'mixed', 'mixed'])
+    if mode == 'default':
+        return
+
+    def one():
+        o = {'phase': rng.choice([None, 'G', 'g', 'gas', 'gas']),
+             'add_gas_P_adj': rng.choice([None, None, True, False, False]),
+             'misc': rng.choice([None, None, 'empty', 'adj', 'cleared']),
+             'phase_late': rng.random() < 0.3}
+        if api == 'from_thermdat':
+            o = {'phase': rng.choice(['G', 'g', 'gas', None]), 'add_gas_P_adj': None,
+                 'misc': rng.choice([None, 'cleared', 'cleared', 'empty']), 'phase_late': rng.random() < 0.5}
+        return o
+    common = one()
+    for sp in species:
+        if mode == 'uniform':
+            sp['opts'] = dict(common)
+        elif rng.random() < 0.6:
+            sp['opts'] = one()
+
+
 
 
 def _gen_calls(rng, points, ok_T, new_T):
@@ -472,6 +518,14 @@ def _gen_calls(rng, points, ok_T, new_T):
         if T2 != T and ok_T(T2):
             points.append([T2, P])
             calls.insert(pos_of(k) + 1, [len(points) - 1, None, 'fresh'])
+    calls = [list(c) + [None] * (4 - len(c)) for c in calls]
+    # (e) the `network` attribute of the live object is re-assigned / re-ordered (same species, same
+    #     amounts, other key order) or all its amounts are doubled, before one of the calls
+    if rng.random() < 0.3:
+        i = rng.randrange(len(calls))
+        calls[i][3] = rng.choice(NETWORK_OPS)
+        if calls[i][3] != 'scale2' and rng.random() < 0.3:
+            calls[rng.randrange(len(calls))][3] = rng.choice(NETWORK_OPS[:-1])
     return points, calls
 
 
@@ -623,6 +677,31 @@ def directed(tier):
           _mk_sp('Cl2', {'Cl': 2, 'He': 0}, -28.0), _mk_sp('Cl', {'He': 0, 'Ar': 0, 'Cl': 1}, -10.0)]
     D.append({'network': 'random', 'api': 'model_list', 'species': hx,
               'feed': [['HCl', 2], ['H2', 0], ['Cl2', 0.1], ['Cl', 0]], 'points': [[1500.0, 1.0]], 'perm': [3, 1, 0, 2]})
+    # ---- species construction options: N2O4 = 2 NO2 away from 1 bar, gas label with and without GasPressureAdj
+    def dimer(opts_a, opts_b):
+        a = _mk_sp('N2O4', {'N': 2, 'O': 4}, -40.0)
+        bb = _mk_sp('NO2', {'N': 1, 'O': 2}, -22.0)
+        a['opts'], bb['opts'] = opts_a, opts_b
+        return [a, bb]
+    for oa, ob in (({'phase': 'G', 'add_gas_P_adj': False}, {'phase': 'gas', 'add_gas_P_adj': False}),
+                   ({'phase': 'gas', 'phase_late': True}, {'phase': 'G'}),
+                   ({'phase': 'g', 'misc': 'cleared'}, {'phase': None, 'misc': 'adj'}),
+                   ({'phase': None}, {'phase': 'G', 'misc': 'empty', 'add_gas_P_adj': False})):
+        D.append({'network': 'random', 'api': 'model_list' if oa.get('phase') else 'model_dict',
+                  'species': dimer(oa, ob), 'feed': [['N2O4', 1], ['NO2', 0]],
+                  'points': [[1000.0, 20.0], [1000.0, 0.05]], 'perm': [1, 0]})
+    D.append({'network': 'random', 'api': 'from_thermdat',
+              'species': dimer({'phase': 'gas', 'misc': 'cleared', 'phase_late': True}, {'phase': 'G', 'misc': 'cleared'}),
+              'feed': [['N2O4', 1], ['NO2', 0.5]], 'points': [[900.0, 50.0]], 'perm': [1, 0],
+              'file_order': [1, 0], 'zero_slots': False, 'decoys': 0, 'reuse': 'rewrite'})
+    # ---- the network attribute of a live object is re-ordered / doubled between calls
+    D.append({'network': 'random', 'api': 'model_list', 'species': wgs,
+              'feed': [['CO', 1], ['H2O', 1.5], ['CO2', 0.1], ['H2', 0]],
+              'points': [[900.0, 2.0], [1100.0, 2.0]],
+              'calls': [[0, None, None, None], [0, None, None, 'sorted'], [1, None, None, 'pop_reinsert'],
+                        [0, None, None, 'reversed'], [1, None, 'fresh', 'scale2']], 'perm': [2, 0, 3, 1]})
+    D.append({'network': 'pinned', 'api': 'from_thermdat', 'names': PINNED_ORDER, 'feed': std,
+              'points': [[1300.0, 1.0]], 'calls': [[0, None, None, 'sorted'], [0, None, None, 'rotate']], 'perm': rev})
     # widest allowed span, four elements, twelve species
     import random
     rng = random.Random('C16-directed')
@@ -795,19 +874,50 @@ def _touch_path(spec, path):
 
 def _build(spec, species, path, order, ctx, mech):
     from pmutt.equilibrium import Equilibrium
+    from pmutt.empirical import GasPressureAdj
     feed = dict((n, f) for n, f in spec['feed'])
     names = [species[i]['name'] for i in order]
     network = {n: feed[n] for n in names}
     if path is not None:
         ctx.cls('api:from_thermdat')
-        return ctx.call('Q1', dict(mech, what='construct'), Equilibrium.from_thermdat, path, network)
+        eq = ctx.call('Q1', dict(mech, what='construct'), Equilibrium.from_thermdat, path, network)
+        if eq is not core.NOVALUE:
+            for sp in species:                  # edits of the species after the read
+                o = sp.get('opts')
+                if not o:
+                    continue
+                try:
+                    obj = eq.model[sp['name']]
+                    if o.get('phase_late'):
+                        obj.phase = o.get('phase')
+                    if o.get('misc') == 'cleared':
+                        obj.misc_models = None
+                    elif o.get('misc') == 'empty':
+                        obj.misc_models = []
+                except (AttributeError, KeyError, TypeError):
+                    pass
+        return eq
     from vf.gen import species as gs
     objs = []
     for i in order:
         sp = species[i]
-        objs.append(gs.build({'type': 'Nasa', 'name': sp['name'], 'T_low': sp['T_low'], 'T_mid': sp['T_mid'],
-                              'T_high': sp['T_high'], 'a_low': sp['a_low'], 'a_high': sp['a_high'],
-                              'phase': 'G', 'elements': sp['elements']}))
+        o = sp.get('opts') or {'phase': 'G'}
+        extra = {}
+        if o.get('add_gas_P_adj') is not None:
+            extra['add_gas_P_adj'] = o['add_gas_P_adj']
+        if o.get('misc') == 'empty':
+            extra['misc_models'] = []
+        elif o.get('misc') == 'adj':
+            extra['misc_models'] = [GasPressureAdj()]
+        obj = gs.build({'type': 'Nasa', 'name': sp['name'], 'T_low': sp['T_low'], 'T_mid': sp['T_mid'],
+                        'T_high': sp['T_high'], 'a_low': sp['a_low'], 'a_high': sp['a_high'],
+                        'phase': None if o.get('phase_late') else o.get('phase'),
+                        'elements': sp['elements']}, **extra)
+        if o.get('phase_late'):
+            obj.phase = o.get('phase')
+        if o.get('misc') == 'cleared':
+            obj.misc_models = None
+        objs.append(obj)
     if spec['api'] == 'model_dict':
         ctx.cls('api:model_dict')
         model = {o.name: o for o in reversed(objs)}
@@ -815,6 +925,53 @@ def _build(spec, species, path, order, ctx, mech):
         ctx.cls('api:model_list')
         model = objs
     return ctx.call('Q1', dict(mech, what='construct'), Equilibrium, model, network)
+
+
+def _species_option_classes(eq, names, ctx):
+    """classes from what the objects look like at solve time"""
+    from pmutt.empirical import GasPressureAdj
+    lab, adj, nol = [], [], []
+    try:
+        for n in names:
+            o = eq.model[n]
+            ph = getattr(o, 'phase', None)
+            lab.append(isinstance(ph, str) and ph.lower() in ('g', 'gas'))
+            nol.append(ph is None)
+            adj.append(any(isinstance(m, GasPressureAdj) for m in (getattr(o, 'misc_models', None) or [])))
+    except Exception:           # noqa  (model container refactored: classes stay empty -> inconclusive)
+        return
+    if all(a and b_ for a, b_ in zip(lab, adj)):
+        ctx.cls('species_opts:default(gas label + GasPressureAdj)')
+    if any(a and not b_ for a, b_ in zip(lab, adj)):
+        ctx.cls('species_opts:gas_label_without_P_adj')
+    if any(b_ and not a for a, b_ in zip(lab, adj)):
+        ctx.cls('species_opts:P_adj_without_gas_label')
+    if any(nol):
+        ctx.cls('species_opts:no_phase_label')
+    if len(set(zip(lab, adj))) > 1:
+        ctx.cls('species_opts:mixed_in_one_network')
+
+
+def _network_op(eq, op):
+    """edit the `network` attribute of a live object; -> True if the key order / amounts changed"""
+    net = eq.network
+    items = list(net.items())
+    if op == 'sorted':
+        eq.network = dict(sorted(items))
+    elif op == 'reversed':
+        eq.network = dict(reversed(items))
+    elif op == 'rotate':
+        eq.network = dict(items[1:] + items[:1])
+    elif op == 'pop_reinsert':
+        k0 = items[0][0]
+        net[k0] = net.pop(k0)
+    elif op == 'equal_copy':
+        eq.network = dict(items)
+    elif op == 'scale2':
+        for k0 in list(net):
+            net[k0] = net[k0] * 2
+        return True
+    return list(eq.network.keys()) != [k0 for k0, _ in items]
 
 
 def _solve(eq, T, P):
@@ -938,8 +1095,11 @@ def _run_case(spec, ctx):
     eq2 = _build(spec, species, path, spec['perm'], ctx, mech0)
     if eq2 is core.NOVALUE:
         return
+    _species_option_classes(eq1, [sp['name'] for sp in species], ctx)
     points = [list(tp) for tp in spec['points']]
     calls = spec.get('calls') or [[k, None] for k in range(len(points))]
+    calls = [list(c) + [None] * (4 - len(c)) for c in calls]
+    scales = (1.0,)
     info = {}
 
     def point_info(k):
@@ -997,9 +1157,24 @@ def _run_case(spec, ctx):
                 ctx.cls('history:same_P_other_T')
             if k in first and prev[0] != k:
                 ctx.cls('history:revisit_after_other_conditions')
-        out = {}
+        if call[3]:
+            # The feed of the object as a mapping species -> amount is unchanged by a re-ordering, so every
+            # oracle applies as before.  Doubled amounts: the unchanged tree keeps the construction feed, a
+            # tree that follows the attribute would use the doubled one; either is accepted, but the
+            # result must be the equilibrium of ONE of them (it is then 1x or 2x the same composition).
+            try:
+                if _network_op(eq1, call[3]):
+                    ctx.cls('history:network_amounts_doubled_on_live_object' if call[3] == 'scale2'
+                            else 'history:network_reordered_on_live_object')
+                    if call[3] == 'scale2':
+                        scales = (1.0, 2.0)
+                else:
+                    ctx.cls('history:network_reassigned_same_order')
+            except (AttributeError, TypeError, KeyError):
+                ctx.branch('network_attribute_not_editable')
+        out = {'scales': scales}
         r = _run_one(ctx, spec, eq1, ident, species, T, P, A, b, bsum, g, mu0, ref, pbase,
-                     'listed, call %d of %s' % (ci + 1, [c[:2] for c in calls]), nreact, out)
+                     'listed, call %d of %s' % (ci + 1, [c[:2] + c[3:4] for c in calls]), nreact, out)
         res = out.get('res')
         st, sg = out.get('status'), out.get('signalled')
         # Q7a  results handed out earlier are not touched by a later call
@@ -1146,6 +1321,12 @@ def _run_one(ctx, spec, eq, order, species, T, P, A, b, bsum, g, mu0, ref, pbase
     x = np.empty(ns)
     n[order] = moles
     x[order] = frac
+    scales = out.get('scales') or (1.0,)
+    if len(scales) > 1 and bsum > 0:
+        rho = float((n @ A).sum()) / bsum
+        sc = min(scales, key=lambda v: abs(rho - v))
+        n = n / sc
+        detail['feed_scale_taken'] = sc
     detail.update(moles=n, feed=[f for _, f in spec['feed']])
     if args is not None:
         gp = np.empty(ns)
